@@ -274,8 +274,16 @@ func (coverage *TestCoverage) Aggregate(cov *TestCoverage) {
 	}
 
 	// Assume that tests are independent (will currently always be the case).
+	// A test can report more than once (several runs, flaky retries), so merge rather than overwrite.
 	for label, c := range cov.Tests {
-		coverage.Tests[label] = c
+		merged := make(map[string][]LineCoverage, len(c))
+		for filename, lines := range coverage.Tests[label] {
+			merged[filename] = lines
+		}
+		for filename, lines := range c {
+			merged[filename] = MergeCoverageLines(merged[filename], lines)
+		}
+		coverage.Tests[label] = merged
 	}
 	// Files are more complex since multiple tests can cover the same file.
 	// We take the best result for each line from each test.
